@@ -147,6 +147,15 @@ def canon_val(v, depth=0):
     return ("obj", type(v).__name__)
 
 
+def _instrument_stateful():
+    """The code of the filters that keep state between reads becomes a place where an asynchronous KeyboardInterrupt can land."""
+    from sim import asyncexc
+    import coba.pipes.filters as PF
+    import coba.environments.filters as EF
+    fns = [PF.Cache.filter, PF.Cache._next_slice, getattr(PF.Cache, "_filter", None), EF.Cache.filter, EF.Densify.filter, EF.EmptyCheck.filter, EF.Chunk.filter, EF.Shuffle.filter]
+    asyncexc.instrument([f for f in fns if hasattr(f, "__code__")])
+
+
 class _Any:
     """Wildcard for a value the reader did not look at."""
     def __eq__(self, o): return True
@@ -329,7 +338,7 @@ def _gen_look(rng):
     return weighted(rng, [(f"one:{rng.randrange(4)}", 4), ("rev", 2), ("none", 1)])
 
 
-def gen_history(rng):
+def gen_history(rng, faults=True):
     hist = []
     for _ in range(3 + rng.randrange(9)):
         o = weighted(rng, [("full", 5), ("partial", 6), ("params", 3), ("pickle", 1.5), ("materialize", 0.7), ("cache", 0.7), ("chunk", 0.4), ("save", 0.6), ("gc", 0.5)])
@@ -340,6 +349,9 @@ def gen_history(rng):
             hist.append(["pickle", {"keep": weighted(rng, [("copy", 2), ("both", 1)])}])
         elif o == "full":
             hist.append([o, {"look": _gen_look(rng)} if rng.random() < 0.35 else {}])
+            if faults and rng.random() < 0.12:
+                # a Ctrl-C between two bytecodes of the stateful filters' own code (Cache, Densify, EmptyCheck ...) during this read
+                hist[-1][1]["ctrl_c_at_bytecode"] = weighted(rng, [(rng.randrange(1, 60), 2), (rng.randrange(1, 400), 2), (rng.randrange(1, 3000), 1)])
         else:
             hist.append([o, {}])
         if o == "partial" and rng.random() < 0.35:
@@ -398,9 +410,12 @@ class C04:
             # readers that look at some outcomes only / in another order are used only where the outcome functions of a FRESH environment do
             # not depend on the order of asking (a Grounded environment whose actions were rewritten by a later filter does: its feedback
             # no longer recognises the actions - a filter-composition matter outside C04); otherwise the twin's values are no reference
+            names = [o[0] for o in cfg["ops"]]
+            keeps_actions = {"cache", "chunk", "shuffle", "take", "slice", "reservoir", "where", "sort", "params", "materialize", "riffle", "cycle"}
+            rewritten = "grounded" in names and any(n not in keeps_actions for n in names[names.index("grounded") + 1:])
             try:
                 K.INTERRUPTS_ENABLED = False
-                order_free = [canon(i, "rev") for i in build_env(cfg, {}).read()] == R
+                order_free = (not rewritten) and [canon(i, "rev") for i in build_env(cfg, {}).read()] == R
             except Exception:
                 order_free = False
             K.INTERRUPTS_ENABLED = True
@@ -434,7 +449,26 @@ class C04:
                 e = live[-1] if op != "full" or len(live) == 1 else live[step % len(live)]
                 label = f"step {step} {op}{a if a else ''}"
                 try:
-                    if op == "full":
+                    if op == "full" and a.get("ctrl_c_at_bytecode"):
+                        from sim import asyncexc
+                        _instrument_stateful()
+                        asyncexc.arm(a["ctrl_c_at_bytecode"])
+                        try:
+                            got = [canon(i, a.get("look", "all")) for i in e.read()]
+                        except KeyboardInterrupt:
+                            got = None
+                        finally:
+                            fired, n_ins = asyncexc.disarm()
+                        if fired is not None:
+                            out["counters"]["fault.ctrl_c_between_bytecodes"] = out["counters"].get("fault.ctrl_c_between_bytecodes", 0) + 1
+                            out["counters"][f"reach.ctrl_c_in.{fired[0]}"] = out["counters"].get(f"reach.ctrl_c_in.{fired[0]}", 0) + 1
+                        if got is None:
+                            abandoned = True
+                            continue
+                        read_objs.add(id(e))
+                        read_after_abandon |= abandoned
+                        self._cmp(got, R, label, vios, cfg)
+                    elif op == "full":
                         got = [canon(i, a.get("look", "all")) for i in e.read()]
                         if a.get("look"):
                             out["counters"]["reach.read_looking_at_some_outcomes_only"] = out["counters"].get("reach.read_looking_at_some_outcomes_only", 0) + 1
